@@ -133,6 +133,10 @@ type Case struct {
 	Clock   []string `json:"clock"` // RFC3339 instants the owned clock shows for successive verifications; empty = real clock
 	// Then: further layouts (their expiries) verified afterwards in the same process, under the last clock value
 	Then []expiry `json:"then,omitempty"`
+	// Zone: hours east of UTC of the zone the process (and the clock's time value) is in; the instant is the same
+	Zone int `json:"zone_hours,omitempty"`
+	// Params: a non-empty parameter dictionary is passed (its names do not occur in the layout)
+	Params bool `json:"with_parameters,omitempty"`
 }
 
 func silence() func() {
@@ -156,17 +160,29 @@ func execute(c *mcx.Ctx, cs Case) (acc []bool, markers []int) {
 	if len(clocks) == 0 {
 		clocks = []string{""}
 	}
+	savedLocal := time.Local
+	defer func() { time.Local = savedLocal }()
+	if cs.Zone != 0 {
+		time.Local = time.FixedZone(fmt.Sprintf("UTC%+d", cs.Zone), cs.Zone*3600)
+	}
+	var params map[string]string
+	if cs.Params {
+		params = map[string]string{"UNUSED_PARAMETER": "value"}
+	}
 	for _, ck := range clocks {
 		if ck != "" {
 			t, err := time.Parse(time.RFC3339, ck)
 			if err != nil {
 				panic(err)
 			}
+			if cs.Zone != 0 {
+				t = t.In(time.Local) // the same instant, as a clock in that zone shows it
+			}
 			intoto.VerifNowHook = func() time.Time { return t }
 		} else {
 			intoto.VerifNowHook = nil
 		}
-		_, err := gen.VerifyAt(c.Work, cs.Entry, md, keys, sup.LinkDir, nil, nil)
+		_, err := gen.VerifyAt(c.Work, cs.Entry, md, keys, sup.LinkDir, params, nil)
 		intoto.VerifNowHook = nil
 		c.Impl(1)
 		acc = append(acc, err == nil)
@@ -203,6 +219,12 @@ func judge(c *mcx.Ctx, cs Case) (obs, sig, class string) {
 	wr := "legacy"
 	if cs.DSSE {
 		wr = "dsse"
+	}
+	if cs.Zone != 0 {
+		wr += fmt.Sprintf("|process-in-zone-UTC%+d", cs.Zone)
+	}
+	if cs.Params {
+		wr += "|with-parameters"
 	}
 	for i := range acc {
 		now := time.Now().UTC()
@@ -272,6 +294,10 @@ func run(c *mcx.Ctx) {
 			// 1. catalogue under the owned clock
 			for _, e := range catalogue(T) {
 				do(Case{Expires: e.Text, Class: e.Class, DSSE: dsse, Entry: entry, Clock: []string{ts}})
+				// the same with the process in a zone west / east of UTC, and with a parameter dictionary
+				do(Case{Expires: e.Text, Class: e.Class, DSSE: dsse, Entry: entry, Clock: []string{ts}, Zone: -8})
+				do(Case{Expires: e.Text, Class: e.Class, DSSE: dsse, Entry: entry, Clock: []string{ts}, Zone: 9})
+				do(Case{Expires: e.Text, Class: e.Class, DSSE: dsse, Entry: entry, Clock: []string{ts}, Params: true})
 			}
 			// 2. clock histories on one process: every sequence of <= 3 instants over {T-1h, T, T+1h} x two expiries in between
 			inst := []string{T.Add(-time.Hour).Format(time.RFC3339), ts, T.Add(time.Hour).Format(time.RFC3339)}
@@ -312,6 +338,7 @@ func run(c *mcx.Ctx) {
 				{now.AddDate(50, 0, 0).Format(schema), "realclock-future-50y"}, {now.AddDate(-50, 0, 0).Format(schema), "realclock-past-50y"},
 			} {
 				do(Case{Expires: e.Text, Class: e.Class, DSSE: dsse, Entry: entry})
+				do(Case{Expires: e.Text, Class: e.Class, DSSE: dsse, Entry: entry, Zone: -8})
 			}
 		}
 	}
@@ -331,7 +358,7 @@ func init() {
 	mcx.Register(&mcx.Driver{
 		ID: "C06", Run: run, Replay: replay, Workers: 8,
 		Rule: "full product: expiry catalogue (instants from T-50y to year 9999 in the exact schema incl. T-1s/T/T+1s; the same instants as RFC3339 with offsets, lower-case z, no suffix, space separator, date only, fractional, RFC1123, Unix seconds, padded; one-digit hour earlier today / yesterday / tomorrow; impossible dates; 5-digit/zero years; empty/blank/arbitrary) " +
-			"plus expiry histories in one process: every ordered pair of catalogue entries as three successive verifications (first, second, second again; quick: legacy wrapper and InTotoVerify, thorough: all four) " +
+			"each also with the process (time.Local and the clock's time value) in UTC-8 and UTC+9 and with a non-empty parameter dictionary; plus expiry histories in one process: every ordered pair of catalogue entries as three successive verifications (first, second, second again; quick: legacy wrapper and InTotoVerify, thorough: all four) " +
 			"x {legacy, DSSE} x {InTotoVerify, InTotoVerifyWithDirectory} on an otherwise accepting 2-step chain with one marker inspection, with the package clock owned (fixed at T=2030-06-15T12:00:00Z); plus every sequence of 2 (thorough: 3) verifications in one process with the clock at {T-1h, T, T+1h} and expiries in between; plus four real-clock cases a day or more away from now. " +
 			"A case is distinct by construction; non-trivial = the reference decides it (expiry equal to now and fractional seconds are don't-care). states = cases, transitions = verifications.",
 		Assumptions: []string{
